@@ -3,6 +3,7 @@ package system
 import (
 	"fmt"
 	"math"
+	"regexp"
 	"strconv"
 	"strings"
 
@@ -50,25 +51,44 @@ func (b Boolean) Name() string {
 // String represents string values.
 type String string
 
+// escapeSequence matches a backslash together with the escape it introduces:
+// a unicode escape (\uXXXX) or any single character. A trailing backslash
+// matches on its own.
+var escapeSequence = regexp.MustCompile(`(?s)\\(u[0-9a-fA-F]{4}|.?)`)
+
+// unescape returns the replacement of a single escape sequence, as matched
+// by escapeSequence.
+func unescape(seq string) string {
+	if len(seq) < 2 {
+		return ""
+	}
+	switch seq[1] {
+	case 'r':
+		return "\r"
+	case 't':
+		return "\t"
+	case 'n':
+		return "\n"
+	case 'f':
+		return "\f"
+	case 'u':
+		if len(seq) == 6 {
+			if code, err := strconv.ParseUint(seq[2:], 16, 32); err == nil {
+				return string(rune(code))
+			}
+		}
+	}
+	// \' \" \` \\ \/ stand for the character itself; for any other
+	// character the backslash is dropped.
+	return seq[1:]
+}
+
 // ParseString parses the input string and replaces FHIRPath
 // escape sequences with their Go-equivalent escape characters.
 func ParseString(input string) (String, error) {
-	escSequences := []string{
-		"\\'", "'",
-		"\\\"", "\"",
-		"\\`", "`",
-		"\\r", "\r",
-		"\\t", "\t",
-		"\\n", "\n",
-		"\\f", "\f",
-		"\\\\", "\\",
-		"\\", "",
-		// TODO PHP-5581
-	}
 	input = strings.TrimPrefix(input, "'")
 	input = strings.TrimSuffix(input, "'")
-	replacer := strings.NewReplacer(escSequences...)
-	escapedString := replacer.Replace(input)
+	escapedString := escapeSequence.ReplaceAllStringFunc(input, unescape)
 	return String(escapedString), nil
 }
 
